@@ -14,8 +14,7 @@ RULE = ('one case = one operator run (apply or map) on one generated matrix shap
 
 FLOORS = (30, 15)
 
-QUICK = [('asan', 1, 1, 8), ('asan', 1, 4, 10), ('asan', 1, 8, 8), ('asan', 2, 2, 10), ('asan', 3, 2, 8), ('asan', 4, 1, 8), ('asan', 4, 3, 8),
-         ('rel', 1, 8, 12), ('rel', 4, 2, 12)]
+QUICK = [('asan', 1, 1, 8), ('asan', 1, 4, 8), ('asan', 1, 8, 8), ('asan', 2, 2, 8), ('asan', 3, 2, 8), ('asan', 4, 2, 8), ('rel', 3, 4, 12)]
 THOROUGH = [('asan', 1, 1, 150), ('asan', 1, 2, 150), ('asan', 1, 4, 150), ('asan', 1, 8, 120), ('asan', 2, 1, 120), ('asan', 2, 2, 120), ('asan', 2, 4, 100),
             ('asan', 3, 1, 80), ('asan', 3, 2, 100), ('asan', 4, 1, 80), ('asan', 4, 2, 80), ('asan', 4, 3, 60),
             ('rel', 1, 8, 200), ('rel', 1, 3, 150), ('rel', 2, 4, 150), ('rel', 3, 3, 120), ('rel', 4, 2, 120), ('rel', 4, 4, 100)]
@@ -37,7 +36,7 @@ def _last_at(r):
     return k, d
 
 
-def _run(ctx, exe, ranks, threads, args, tag, stall_s=45, timeout=1800):
+def _run(ctx, exe, ranks, threads, args, tag, stall_s=90, timeout=3600):
     return ctx.run([exe, '--threads', str(threads)] + [str(a) for a in args], timeout=timeout, stall_s=stall_s, mpi=ranks, tag=tag)
 
 
@@ -64,7 +63,7 @@ def _bulk(ctx, exe, fl, ranks, threads, cases, seed):
         tag = 'ops-%s-%dx%d-%d' % (fl, ranks, threads, start)
         r = _run(ctx, exe, ranks, threads, ['--mode', 'ops', '--cases', cases, '--start', start, '--seed', seed], tag)
         what = '%s ranks=%d threads=%d cases %d..%d seed %d' % (fl, ranks, threads, start, cases, seed)
-        st = ctx.absorb(r, what)
+        st = ctx.absorb(r, what, expect_objs=False)
         if r.summary() is not None:
             _take(ctx, r, fl)
             return
@@ -75,7 +74,7 @@ def _bulk(ctx, exe, fl, ranks, threads, cases, seed):
         if st == 'stalled':
             # stall rule: the same case alone, once more
             r2 = _run(ctx, exe, ranks, threads, ['--mode', 'ops', '--cases', at + 1, '--start', at, '--seed', seed], tag + '-again')
-            st2 = ctx.absorb(r2, what + ' (case %d alone)' % at)
+            st2 = ctx.absorb(r2, what + ' (case %d alone)' % at, expect_objs=False)
             if st2 == 'stalled':
                 op = (re.search(r'op=(\w+)', desc) or [None, 'op'])[1]
                 ctx.violation('%s:stall:no-progress' % op, 'no progress twice on case: %s' % desc, r2)
@@ -92,10 +91,10 @@ def _probe(ctx, exe, ranks, threads, mode, extra, key_on_stall, what):
 
     def once():
         k[0] += 1
-        return _run(ctx, exe, ranks, threads, ['--mode', mode, '--cases', 1, '--seed', ctx.seed] + extra, 'probe-%s-%d-%d' % (mode, ranks, k[0]), stall_s=15, timeout=240)
-    r = once(); st = ctx.absorb(r, what)
+        return _run(ctx, exe, ranks, threads, ['--mode', mode, '--cases', 1, '--seed', ctx.seed] + extra, 'probe-%s-%d-%d' % (mode, ranks, k[0]), stall_s=150, timeout=900)
+    r = once(); st = ctx.absorb(r, what, expect_objs=False)
     if st == 'stalled':
-        r2 = once(); st2 = ctx.absorb(r2, what)
+        r2 = once(); st2 = ctx.absorb(r2, what, expect_objs=False)
         if st2 == 'stalled':
             at, desc = _last_at(r2)
             ctx.violation(key_on_stall, '%s: no progress twice (%s)' % (what, desc), r2)
@@ -112,21 +111,27 @@ def run(ctx):
                        'every rank generates the same case list from the seed; owners come from the collection\'s own rank_of (C20 checks that function)',
                        'symmetric distributions are only driven with the matching uplo; tiles outside the stored triangle are never queried',
                        'the uplo argument handed to the operator (uplo on diagonal tiles, full elsewhere) is counted, not judged',
-                       'bulk map cases give every rank at least one source tile (the empty-rank shape is a recorded finding driven by a probe)']
+                       'a map taskpool that is created with no task but a pending action is reported from its state and not enqueued (it could never complete); nine bulk map cases of ten give every rank a source tile, a probe drives the empty-rank shape']
     exes = {f: ctx.harness('c22_ops', f) for f in ('asan', 'rel')}
     plan = THOROUGH if thorough else QUICK
 
-    def one(p):
-        fl, ranks, threads, n = p
-        _bulk(ctx, exes[fl], fl, ranks, threads, n, ctx.seed * 100 + ranks * 10 + threads)
-    ctx.pmap(one, plan, jobs=3)
+    jobs = [('bulk',) + p for p in plan]
     # probes for the recorded findings (one process each)
-    _probe(ctx, exes['asan'], 2, 2, 'map_empty_rank', [], 'map:stall:rank-without-source-tiles', 'map operator, 1 source tile on 2 ranks')
-    _probe(ctx, exes['asan'], 1, 2, 'reduce_row', ['--mt', 1, '--nt', 1], 'reduce_row:stall:no-progress', 'reduce_row on 1x1 tiles')
-    _probe(ctx, exes['asan'], 1, 2, 'reduce_row', ['--mt', 2, '--nt', 2], 'reduce_row:stall:no-progress', 'reduce_row on 2x2 tiles')
-    _probe(ctx, exes['asan'], 1, 2, 'reduce_col', ['--mt', 1, '--nt', 1], 'reduce_col:stall:no-progress', 'reduce_col on 1x1 tiles')
+    jobs += [('probe', 2, 2, 'map_empty_rank', [], 'map:stall:rank-without-source-tiles', 'map operator, 1 source tile on 2 ranks'),
+             ('probe', 1, 2, 'reduce_row', ['--mt', 1, '--nt', 1], 'reduce_row:stall:no-progress', 'reduce_row on 1x1 tiles'),
+             ('probe', 1, 2, 'reduce_row', ['--mt', 2, '--nt', 2], 'reduce_row:stall:no-progress', 'reduce_row on 2x2 tiles'),
+             ('probe', 1, 2, 'reduce_col', ['--mt', 1, '--nt', 1], 'reduce_col:stall:no-progress', 'reduce_col on 1x1 tiles')]
     if thorough:
-        _probe(ctx, exes['asan'], 3, 1, 'map_empty_rank', [], 'map:stall:rank-without-source-tiles', 'map operator, 1 source tile on 3 ranks')
-        _probe(ctx, exes['asan'], 2, 2, 'reduce_col', ['--mt', 3, '--nt', 2], 'reduce_col:stall:no-progress', 'reduce_col on 3x2 tiles, 2 ranks')
-        _probe(ctx, exes['asan'], 2, 2, 'reduce_row', ['--mt', 4, '--nt', 1], 'reduce_row:stall:no-progress', 'reduce_row on 4x1 tiles, 2 ranks')
+        jobs += [('probe', 3, 1, 'map_empty_rank', [], 'map:stall:rank-without-source-tiles', 'map operator, 1 source tile on 3 ranks'),
+                 ('probe', 2, 2, 'reduce_col', ['--mt', 3, '--nt', 2], 'reduce_col:stall:no-progress', 'reduce_col on 3x2 tiles, 2 ranks'),
+                 ('probe', 2, 2, 'reduce_row', ['--mt', 4, '--nt', 1], 'reduce_row:stall:no-progress', 'reduce_row on 4x1 tiles, 2 ranks')]
+
+    def one(j):
+        if j[0] == 'bulk':
+            _, fl, ranks, threads, n = j
+            _bulk(ctx, exes[fl], fl, ranks, threads, n, ctx.seed * 100 + ranks * 10 + threads)
+        else:
+            _, ranks, threads, mode, extra, key, what = j
+            _probe(ctx, exes['asan'], ranks, threads, mode, extra, key, what)
+    ctx.pmap(one, jobs, jobs=4)
     ctx.cov['configurations'] = ['%s:%dranks x %dthreads' % (fl, r, t) for fl, r, t, n in plan]
